@@ -69,6 +69,16 @@ def run_shard(cid, tier, seed, shard, nshards, workdir, timeout, extra_env=None)
             proc = subprocess.run(cmd, cwd=VERIF, env=env, stdout=subprocess.DEVNULL,
                                   stderr=err, timeout=timeout)
     except subprocess.TimeoutExpired:
+        # a shard that found a violation before it ran out of time has found a violation
+        try:
+            with open(out) as stream:
+                result = json.load(stream)
+        except (OSError, ValueError):
+            result = None
+        if result and result.get('violations'):
+            result['shard'] = shard
+            result['config'] = config['name']
+            return result
         return {'shard': shard, 'error': 'timeout after %ss' % timeout}
     if proc.returncode != 0 or not os.path.exists(out):
         tail = ''
